@@ -56,7 +56,7 @@ def run_relations(chk, spec):
 	nr = len(rc[0]) if rc else 0
 	lkeycols = [lc[ln.index(k)] for k in lon]
 	rkeycols = [rc[rn.index(k)] for k in ron]
-	if J.refusal_allowed(lkeycols, rkeycols):
+	if J.refusal_allowed(lkeycols, rkeycols, [L.cols()[ln.index(k)].schema() for k in lon], [R.cols()[rn.index(k)].schema() for k in ron]):
 		chk.skip("relations-refusal-allowed")
 		return
 	lkeys = J.rows_from(lkeycols, nl)
